@@ -21,7 +21,7 @@ ASSUMPTIONS = ["restricted domain: state sequences that no simulation history pr
 LEVEL_TEXT = ("Seeded exploration restricted to reachable logs: the reporting functions are pure functions of a log; feeding them hand-made "
               "sequences would be input generation, not simulation, and is not done.")
 LEVEL_NOTE = "Trusted: the independent run-length encoder and brute-force filters in this module; reachable sequences only."
-PROBES = ["logs_encoded", "log_with_absence_flip", "log_suspended_tail", "log_reversed", "log_edited", "extract_queries",
+PROBES = ["logs_encoded", "log_with_absence_flip", "log_suspended_tail", "log_reversed", "log_edited", "log_absence_removed", "extract_queries",
           "extract_out_of_range", "plotly_rows_checked", "last_datetime_checked", "resource_absence_run"]
 
 MARGINS = (1.0, 0.0, 0.5)
@@ -36,7 +36,7 @@ def gen(rng, tier):
     if rng.random() < 0.4:
         focus.update(comps=True, facilities=True)
     spec = C.forward_spec(rng, tier, focus, max_time=rng.choice([5, 12, 25, 40]))
-    spec["variant"] = G.wchoice(rng, [("forward", 4), ("backward", 2), ("edited", 2)])
+    spec["variant"] = G.wchoice(rng, [("forward", 4), ("backward", 2), ("edited", 2), ("removed", 2)])
     spec["reverse"] = rng.random() < 0.5
     spec["edit"] = sorted(set(rng.randint(0, 8) for _ in range(rng.randint(1, 3))))
     spec["times"] = [sorted(set(rng.randint(0, 14) for _ in range(rng.randint(1, 3)))) for _ in range(3)]
@@ -117,6 +117,9 @@ def run(spec):
         if variant == "edited" and out.ok:
             D.call(lambda: p.insert_absence_time_list(list(spec.get("edit", []))))
             res.count("log_edited")
+        if variant == "removed" and out.ok:
+            D.call(lambda: p.remove_absence_time_list())
+            res.count("log_absence_removed")
     res.steps = rec.n_recorded
     if not out.ok:
         res.count("sut_exception")
@@ -206,17 +209,18 @@ def run(spec):
     # set_last_datetime
     y, mo, d_, h, mi = spec.get("last", [2021, 1, 1, 0, 0])
     last = datetime.datetime(y, mo, d_, h, mi, 0)
-    if p.time >= 1:
+    if n >= 1:
         oc = D.call(lambda: p.set_last_datetime(last))
         res.count("last_datetime_checked")
         if not oc.ok:
             res.add("last", "C19.set_last_datetime_raises", "set_last_datetime raised %s" % oc.msg, None)
         else:
-            if p.init_datetime + (p.time - 1) * p.unit_timedelta != last or oc.value != p.init_datetime:
+            # "the last simulated step" is the last entry of the logs (n entries), whatever project.time says
+            if p.init_datetime + (n - 1) * p.unit_timedelta != last or oc.value != p.init_datetime:
                 res.add("last", "C19.set_last_datetime_wrong", "set_last_datetime(%s) with time=%d unit=%s set init_datetime=%s: last step falls on %s"
                         % (last, p.time, p.unit_timedelta, p.init_datetime, p.init_datetime + (p.time - 1) * p.unit_timedelta), None)
             oc2 = D.call(lambda: p.set_last_datetime(last, unit_timedelta=datetime.timedelta(minutes=7), set_init_datetime=False))
-            if oc2.ok and oc2.value + (p.time - 1) * datetime.timedelta(minutes=7) != last:
+            if oc2.ok and oc2.value + (n - 1) * datetime.timedelta(minutes=7) != last:
                 res.add("last", "C19.set_last_datetime_wrong", "set_last_datetime(unit=7min, set_init_datetime=False) returned %s" % oc2.value, None)
     res.nontrivial = nontrivial
     res.digest = D.digest(D.dump(p, ix))
